@@ -531,7 +531,7 @@ func bodyNodes(g *gspec.GraphSpec, out map[string]bool) {
 func TestCheck(t *testing.T) {
 	cfg := mon.Load(ID)
 	rep := mon.NewReporter(cfg, "exploration",
-		"generated specs with parallel nodes in Pregel-batch, DAG-batch and Workflow-eager mode; each spec is run under a set of schedules: (a) gated completion — every node body parks before returning and a controller releases the parked bodies one at a time in a chosen order (mixed-radix schedule numbers 0..k enumerate the permutations of the first parallel steps, PRNG orders beyond), (b) PRNG yields/µs-sleeps at the 6 hook points of the task hand-off protocol that lie outside the manager's mutex, GOMAXPROCS ∈ {1,2,16}; panicking bodies are mixed in. Oracles: result and execution multiset equal to the reference under every schedule; an online protocol monitor over the hook events (per task submit→bodyDone→pushed→handoff→recv→collected exactly once and in order, FIFO hand-off = push order = receive order, 1-slot channel bound, batch steps do not overlap, on a successful return every batch task / every task feeding END is collected, bodies feeding END have returned before the run returns); the quiescence monitor for hangs; the race detector. Non-trivial: a schedule of a spec in which >=2 bodies were in flight together (>=2 parked at the gate or >=2 pushes between two collections); distinct = (spec, completion order).",
+		"generated specs with parallel nodes in Pregel-batch, DAG-batch and Workflow-eager mode; each spec is run under a set of schedules: (a) gated completion — every node body parks before returning and a controller releases the parked bodies one at a time in a chosen order (mixed-radix schedule numbers 0..k enumerate the permutations of the first parallel steps, PRNG orders beyond), (b) PRNG yields/µs-sleeps at the 6 hook points of the task hand-off protocol that lie outside the manager's mutex, GOMAXPROCS ∈ {1,2,16}; panicking bodies are mixed in; one case in eight is a hand-built spec with a plain edge AND a branch between the same pair of nodes (edge_branch_test.go: x with further predecessors skipped or selected by branches of concurrently running nodes) run under forced branch outcomes and the completion orders a-first / a-last / enumerated / PRNG / yields: result and the executions feeding it must be identical under every order and equal to the reference. Oracles: result and execution multiset equal to the reference under every schedule; an online protocol monitor over the hook events (per task submit→bodyDone→pushed→handoff→recv→collected exactly once and in order, FIFO hand-off = push order = receive order, 1-slot channel bound, batch steps do not overlap, on a successful return every batch task / every task feeding END is collected, bodies feeding END have returned before the run returns); the quiescence monitor for hangs; the race detector. Non-trivial: a schedule of a spec in which >=2 bodies were in flight together (>=2 parked at the gate or >=2 pushes between two collections); distinct = (spec, completion order).",
 		[]string{"the harness starts no timers in the child (quiescence verdicts are state based)", "on an error return the framework legitimately leaves other tasks uncollected", "in eager mode tasks that do not feed END may be uncollected when the run returns"},
 		100)
 	defer func() {
